@@ -47,6 +47,27 @@ theorem C12_round_robin (p : Pool) (hn : 0 < p.chans.length) :
     ((p.picks p.chans.length).2).Perm (p.chans.map (fun e => some e.1)) :=
   round_robin_perm p hn
 
+/-- **No tunnel starves**: every registered tunnel is used within any `n`
+    consecutive RPCs, whatever the cursor. -/
+theorem C12_no_starvation (p : Pool) (hn : 0 < p.chans.length) (e : Nat × Nat) (he : e ∈ p.chans) :
+    some e.1 ∈ (p.picks p.chans.length).2 :=
+  (C12_round_robin p hn).mem_iff.mpr (List.mem_map.mpr ⟨e, he, rfl⟩)
+
+/-- **No tunnel is used twice in a round**: with distinct tunnels, `n`
+    consecutive picks are pairwise different. -/
+theorem C12_no_repeat_in_round (p : Pool) (hn : 0 < p.chans.length)
+    (hd : (p.chans.map (·.1)).Nodup) : ((p.picks p.chans.length).2).Nodup := by
+  refine (C12_round_robin p hn).nodup_iff.mpr ?_
+  have : p.chans.map (fun e => some e.1) = (p.chans.map (·.1)).map some := by simp
+  rw [this]
+  exact List.Pairwise.map some (fun _ _ h hs => h (Option.some.inj hs)) hd
+
+/-- a pick never returns anything but a registered tunnel, and returns nothing
+    only when there is none -/
+theorem C12_pick_registered (p : Pool) (t : Nat) (h : p.pick.2 = some t) : t ∈ p.all := by
+  obtain ⟨e, he, ht⟩ := pick_some_mem p t h
+  exact List.mem_map.mpr ⟨e, he, ht⟩
+
 theorem C12_round_robin_key (r : Registry) (os : OpenSet) (h : RInv r os) (k : Nat)
     (hn : 0 < (os.filter (·.2 = k)).length) :
     ((picksKey r k (os.filter (·.2 = k)).length).2).Perm ((os.filter (·.2 = k)).map (fun e => some e.1)) :=
